@@ -245,7 +245,7 @@ Fixpoint gm_loop (Sz : sizes) (al : nat -> bool) (ms : list elem) (n : N) (k : n
           let '(er, o) := gm_loop Sz al r n2 (S (S k)) arr cap cnt' (got ++ [n1]) in
           (e0 ++ e1 ++ ec ++ [Free n] ++ er, o)
       else (e0 ++ e1 ++ (if a0 then [Free n] else []) ++ (if a1 then [Free n1] else []) ++ cleanup, Failed)
-    | _, _ => ([], Nothing)
+    | _, _ => (map Free (got ++ olist arr), Nothing)      (* table objects always have a key and a value *)
     end
   end.
 Definition script_ltbl_getmulti (Sz : sizes) (g : gst) (fwd : bool) (key : N) (n : N) (al : nat -> bool) : sres gst :=
@@ -276,12 +276,12 @@ Definition script_list_addat (Sz : sizes) (g : gst) (pos : nat) (ds : N) (from :
   else nomut g [AllocFail TData ds] Failed.
 (* popat = get_at(newmem, remove): malloc; memcpy; remove_obj: free(data); free(obj).  tmp: the copy is consumed inside the call (popint) *)
 Definition script_list_popat (g : gst) (p : list elem) (e : elem) (q : list elem) (tmp : bool) (n : N) (al : nat -> bool) : sres gst :=
-  match edata e with
-  | Some d =>
+  match ename e, edata e with
+  | None, Some d =>
     if al 0%nat then mkR ([Alloc n (if tmp then TTmp else TRet) (esz e)] ++ cp n (SBlk d) (esz e) ++ [Free d; Free (eobj e)] ++ (if tmp then [Free n] else [Return n])) Done
                          (mkG (hdr g) (p ++ q)) true
     else nomut g [AllocFail (if tmp then TTmp else TRet) (esz e)] Failed
-  | None => nomut g [] Nothing
+  | _, _ => nomut g [] Nothing          (* list objects have a value and no key *)
   end.
 (* getint: copy obtained and released inside the call *)
 Definition script_list_gettmp (g : gst) (e : elem) (n : N) (al : nat -> bool) : sres gst :=
